@@ -175,3 +175,57 @@ Print Assumptions C19_reexp_C17_is_local_maximum_safe.
 Theorem C19_reexp_C15_dfs_partition : ltac:(let t := type of Centro.Props.C15.C15_dfs_partition in exact t).
 Proof. exact Centro.Props.C15.C15_dfs_partition. Qed.
 Print Assumptions C19_reexp_C15_dfs_partition.
+
+(* ------------------------------------------------------------------ _all_connected_components *)
+From Centro Require Import Model.GraphC19 Proofs.GraphC19Safe.
+
+(* Full (array-level model: label, v_idx, stack of capacity n, every access checked): for every
+   graph in the kernel's ragged format whose segments lie inside j and whose edge targets are
+   vertices — symmetric or not, with duplicates and self-loops —, the explicit stack never
+   overflows its n entries and no read or write leaves its array; any number of iterations. *)
+Theorem C19_all_connected_components_safe : forall fuel n jarr indexes counts,
+  kernel_pre_acc n jarr indexes counts = true ->
+  all_connected_components fuel n jarr indexes counts <> None.
+Proof. exact acc_safe. Qed.
+Print Assumptions C19_all_connected_components_safe.
+
+(* ------------------------------------------------------------------ trace_outlines *)
+From Centro Require Import Model.TraceC19 Proofs.TraceC19Safe.
+
+(* Full: for every label array in which each TRACED object (a label found at a start index) lies
+   strictly inside the array — which get_outline_pts establishes by zero-padding whenever a
+   requested label touches the border — no read of labels / firsts / the two 8-entry tables leaves
+   its array, and the write p_output[output_idx] is bounded by output_end unconditionally (an
+   output that is too small sets the overrun flag, it is never overrun).  Every fuel. *)
+Theorem C19_trace_outlines_safe : forall fuel labels firsts strides newdir out counts,
+  kernel_pre_trace labels firsts strides (zlen counts) = true ->
+  trace_outlines fuel labels firsts strides newdir out counts <> None.
+Proof. exact trace_safe. Qed.
+Print Assumptions C19_trace_outlines_safe.
+
+(* ------------------------------------------------------------------ fill_labeled_holes_loop *)
+From Centro Require Model.FillC19 Proofs.FillC19Safe.
+
+(* Full (array-level model, both walks): the to_do stack never outgrows its |to_do| entries — first
+   walk: |stack| + #zeros(is_not_hole) <= |to_do|, a push turns a 0 into 1; second walk: |stack| +
+   #zeros(adjacent_non_hole) <= n, a push turns a 0 into its parent's non-zero value — and no access
+   of j / idx / i_count / is_not_hole / adjacent_non_hole leaves its array; every fuel, every lcount. *)
+Theorem C19_fill_labeled_holes_loop_safe : forall fuel n cap lcount jarr idx cnt inh0 adj0 todo0,
+  FillC19.kernel_pre_fill n cap jarr idx cnt inh0 adj0 todo0 = true ->
+  FillC19.fill_labeled_holes_loop fuel cap lcount jarr idx cnt inh0 adj0 todo0 <> None.
+Proof. exact FillC19Safe.fill_safe. Qed.
+Print Assumptions C19_fill_labeled_holes_loop_safe.
+
+(* ------------------------------------------------------------------ convex hull, in-place write *)
+From Centro Require Props.C02.
+
+(* Finite (re-exported from C02; general statement no_overflow is NOT proved): for every point set
+   of the 4x4 / 3x4 grid and every listed slack the hull written in place fits into the label's own
+   rows:  |hull| <= slack + |pixels|  (outidx + num_emitted never passes pixidx). *)
+Theorem C19_reexp_C02_hull_inplace_4x4_finite : ltac:(let t := type of Centro.Props.C02.C02_hull_label_grid_4x4_finite in exact t).
+Proof. exact Centro.Props.C02.C02_hull_label_grid_4x4_finite. Qed.
+Print Assumptions C19_reexp_C02_hull_inplace_4x4_finite.
+
+Theorem C19_reexp_C02_hull_inplace_3x4_finite : ltac:(let t := type of Centro.Props.C02.C02_hull_label_grid_3x4_finite in exact t).
+Proof. exact Centro.Props.C02.C02_hull_label_grid_3x4_finite. Qed.
+Print Assumptions C19_reexp_C02_hull_inplace_3x4_finite.
